@@ -1,4 +1,5 @@
 """Property id -> module implementing run(prop, tier) / replay(prop, path)."""
 ALL = {
-    "C01": "matchprops",
+    "C01": "matchprops", "C02": "matchprops", "C03": "matchprops", "C04": "matchprops",
+    "C05": "matchprops", "C07": "matchprops", "C11": "matchprops", "C12": "matchprops",
 }
